@@ -46,3 +46,16 @@ Example C01_example :
   let body := repeat 0%N 12 ++ [0xDE;0xAD;0xBE;0xEF]%N in
   file_table (hdr ++ ent 4%N ++ body) 0x54455354 = Some [0xDE;0xAD;0xBE;0xEF]%N /\ file_table (hdr ++ ent 5%N ++ body) 0x54455354 = None.
 Proof. vm_compute. split; reflexivity. Qed.
+
+(* Pass::readPass: for ARBITRARY pass bytes (any length, any header values, any subtable base) the loader never reads outside
+   the pass, and every array and code block it goes on to read — ranges, rule map, start states, sort keys, pre-contexts,
+   constraint / action offsets, transition table, pass constraint, each rule's constraint and action code — lies inside it. *)
+From GR Require Import Base.Mem Model.PassModel Proofs.PassProofs.
+Theorem C01_read_pass_safe : forall (l : bytes) base coll_ok,
+  match read_pass (mem_of_list l) base coll_ok with
+  | PTrap => False
+  | PReject => True
+  | PAccept rs => Forall (fun r => (0 <= fst r /\ 0 <= snd r /\ fst r + snd r <= Z.of_N (tlen (mem_of_list l)))%Z) rs
+  end.
+Proof. exact read_pass_arbitrary_bytes. Qed.
+Print Assumptions C01_read_pass_safe.
